@@ -72,6 +72,13 @@ theorem stored_columns_are_ciphertexts (C : Crypto) (rng : Nat → Nonce) (like 
   rw [hk] at this
   exact this
 
+/-- The arguments of a tag filter, with their provenance, are byte for byte and in order the argument vector of the
+    WQL encoder model that C04 verifies (`encode_tag_filter`): names and encrypted-tag values encrypted, plaintext-tag
+    values as given. -/
+theorem filter_arguments_are_the_encoder's (C : Crypto) (k : Nat) (q : Query String) :
+    (encodeFilter C k (some q)).2.map (·.bytes) = (encodeQuery (tagCrypto C k) (tagQuery q)).2 :=
+  Lemmas.encodeFilter_bytes C k q
+
 /-- No value nonce is ever repeated: the nonces of all value encryptions of a history (stored or not, in the store
     or in a copy target) are pairwise distinct, provided the random stream does not repeat among the draws the
     history consumes.  (`Function.Injective rng` cannot be the hypothesis: a 96-bit nonce space has no injection
